@@ -49,4 +49,14 @@ def toArray (n : Nat) (v : Bytes) : Rs.M Bytes :=
 /-- `u64::from_be_bytes` -/
 def fromBe8 (b : Bytes) : Nat := b.foldl (fun acc x => acc * 256 + x.toNat) 0
 
+/-- `BTreeMap<String, V>::insert` with the key as a byte string: replace the entry of the key or add one (the
+    iteration order of the map is not represented; only lookups are meaningful) -/
+def bmapInsert {α : Type} : List (Bytes × α) → Bytes → α → List (Bytes × α)
+  | [], k, x => [(k, x)]
+  | (k0, v0) :: r, k, x => if k0 = k then (k0, x) :: r else (k0, v0) :: bmapInsert r k x
+
+def bmapGet {α : Type} : List (Bytes × α) → Bytes → Option α
+  | [], _ => none
+  | (k0, v0) :: r, k => if k0 = k then some v0 else bmapGet r k
+
 end VlsModel.Hm
